@@ -17,6 +17,22 @@ ASSUMPTIONS = ["parry intersection_with_local_plane returns a polyline whose ind
 M = 'geom3::mesh::Mesh'
 
 
+
+def curve3_dedup_rule(cx):
+    """shared with C03 (a duplicate filter that is not a Euclidean distance makes the rebuilt curve depend on the frame)"""
+    # the only filter between the chained crossing vertices and the returned curve is the duplicate filter of Curve3::from_points
+    b = cx.fn('geom3::curve3::Curve3::from_points')
+    if b:
+        n = 0
+        for cl in cx.facts.closures_of(b.name):
+            r = cx.retval(cl)
+            if find('(field cap:tol _)', r):
+                n += 1
+                cx.expect('EXPR', 'Curve3::from_points:dedup-predicate', r, '(le (call *points::dist (param 2) (param 3)) (field cap:tol (param 1)))',
+                          'section vertices are merged only when their DISTANCE is within tol (a crossing segment longer than tol is never dropped)', where=cl.file)
+        cx.ob('EXPR', 'Curve3::from_points:filters', n == 1 and len(b.calls('Vec::dedup_by')) == 1 and not b.calls('Vec::retain') and not b.calls('Vec::truncate') and not b.calls('Vec::remove'),
+              'the duplicate filter is the only thing that removes section vertices', where=b.file)
+
 def run(cx):
     # 'sectioning commutes with rigid motion of mesh and plane together' needs the plane to move as a plane (rule shared with C03)
     from rules.C03 import plane_transform_rule, mesh_transform_rule
@@ -29,6 +45,10 @@ def run(cx):
         calls = b.calls('TriMesh::intersection_with_local_plane')
         ok = len(calls) == 1 and match('(field normal (param plane))', cx.arg(calls[0], 1)) is not None and match('(field d (param plane))', cx.arg(calls[0], 2)) is not None
         cx.ob('EXPR', 'Mesh::section:plane', ok, 'normal and offset of the same plane reach the intersection routine', where=b.file)
+        eps = cx.arg(calls[0], 3) if len(calls) == 1 else None
+        cx.ob('EXPR', 'Mesh::section:on-plane-epsilon', eps is not None and eps[0] == 'const' and isinstance(eps[1], float) and 0 < eps[1] <= 1e-6,
+              'the thickness within which a mesh vertex counts as lying on the plane is a constant no larger than 1e-6 - not the caller\'s curve-merging tolerance - so every section vertex is on the plane to that accuracy',
+              where=b.file, found=eps)
         # the collected curves as a comprehension over the chains (push loop or extend(filter_map) alike); each curve's points as a
         # comprehension over one chain
         from vpa import comp as CMP
@@ -52,18 +72,7 @@ def run(cx):
         cx.ob('EXPR', 'Mesh::section:curves', okf, 'each curve is built from the vertices of ONE chain of chained_indices(pline.indices()), in chain order, with tol.unwrap_or(1e-6)', where=b.file)
         cx.ob('EXPR', 'Mesh::section:vertex-lookup', okv, 'chain entry i maps to pline.vertices()[i]', where=b.file)
         cx.ob('GUARD', 'Mesh::section:collect', okp, 'every chain that forms a valid curve is collected (the only condition is that from_points succeeds)', where=b.file)
-    # the only filter between the chained crossing vertices and the returned curve is the duplicate filter of Curve3::from_points
-    b = cx.fn('geom3::curve3::Curve3::from_points')
-    if b:
-        n = 0
-        for cl in cx.facts.closures_of(b.name):
-            r = cx.retval(cl)
-            if find('(field cap:tol _)', r):
-                n += 1
-                cx.expect('EXPR', 'Curve3::from_points:dedup-predicate', r, '(le (call *points::dist (param 2) (param 3)) (field cap:tol (param 1)))',
-                          'section vertices are merged only when their DISTANCE is within tol (a crossing segment longer than tol is never dropped)', where=cl.file)
-        cx.ob('EXPR', 'Curve3::from_points:filters', n == 1 and len(b.calls('Vec::dedup_by')) == 1 and not b.calls('Vec::retain') and not b.calls('Vec::truncate') and not b.calls('Vec::remove'),
-              'the duplicate filter is the only thing that removes section vertices', where=b.file)
+    curve3_dedup_rule(cx)
     b = cx.fn(f'{M}::split')
     if b:
         LS = '(call TriMesh::local_split (field shape (param self)) (field normal (param plane)) (field d (param plane)) 1e-06)'
@@ -76,9 +85,9 @@ def run(cx):
             g = cx.guarded(b, s.bb, f'(is {LS} {var})', True) is not None
             if var == 'Pair':
                 okp = match(f'(agg * (0 (call *new_take_trimesh (field 0 (variant Pair {LS})) false)) (1 (call *new_take_trimesh (field 1 (variant Pair {LS})) false)))', d) is not None
-                seen[var] = g and okp
+                seen[var] = seen.get(var, True) and g and okp
             else:
-                seen[var] = g
+                seen[var] = seen.get(var, True) and g       # EVERY exit with this variant is parry's verdict (no short-cut classification)
         cx.ob('EXPR', 'Mesh::split:mapping', seen == {'Pair': True, 'Negative': True, 'Positive': True},
               'Pair -> Pair(first, second) as non-solid meshes in the same order; Negative -> Negative; Positive -> Positive', where=b.file, found=str(seen))
     chain_rules.run(cx)
